@@ -210,7 +210,16 @@ def run(ctx, args):
     # systematic single-function layouts: every sequence of <= 1 (quick) / <= 3 (thorough) defer statements over
     # {top level, taken if, skipped if, for of 0 / 2 iterations} x {with, without argument node} x fault position
     enum = dg.enum_cases(1 if quick else int(os.environ.get("VERIF_C04_ENUM", "3")))
+    if quick:
+        enum += rng.sample(dg.enum_cases(3), 60)
     allc = corpus + enum + gen
+    if getattr(args, "replay", None):
+        # ./check C04 --replay replay/C04/<key>.json : run only the recorded layout (plus the corpus witnesses)
+        rp = json.load(open(args.replay))
+        lay = rp.get("replay", {}).get("layout")
+        if lay:
+            lay["name"] = "replay"
+            allc = corpus + [lay]
     for i in range(0, len(allc), per):
         batches.append(allc[i:i + per])
 
